@@ -54,6 +54,36 @@ def scripted_id_reuse(w, origin, victim_hops):
                 w.deliver(w.net.inflight[0].seq)
 
 
+def scripted_cross_answer(w, target_pick):
+    """circuit A is up; while circuit B is being built through the same relay, a dishonest next hop answers the relay's
+    create with a created whose (plaintext) header names another circuit id in use at that relay"""
+    a = K.build(w, "o", 2)
+    w.send_data("o", a, 1)
+    while w.net.inflight:
+        w.deliver(w.net.inflight[0].seq)
+    w.create_circuit("o", 3)
+    mangled = 0
+    for _ in range(120):
+        if not w.net.inflight:
+            break
+        d = w.net.inflight[0]
+        desc = w.describe(d)
+        if desc["t"] == "cell" and desc["plain"] and len(d.data) > 29 and d.data[29] == 3 and desc["dst"] != "o" and mangled < 2:
+            known = [c for c in sorted(set(w.cid_map.values())) if c != desc["cid"]]
+            w.mangle_answer(d.seq, "cid", target_cid=known[target_pick % len(known)])
+            mangled += 1
+        w.deliver(d.seq)
+    # circuit A must be untouched: its data still leaves through its own exit and comes back to its originator
+    w.send_data("o", a, 2)
+    while w.net.inflight:
+        w.deliver(w.net.inflight[0].seq)
+    log = [e for e in w.exit_log() if e["p"] == 2]
+    if log:
+        w.exit_return(log[0]["n"], log[0]["cid"], 2)
+        while w.net.inflight:
+            w.deliver(w.net.inflight[0].seq)
+
+
 def run(tier, seed, replay=None):
     setup_repo_path()
     ctx = Ctx(PID, tier, seed, "model_checking")
@@ -99,6 +129,18 @@ def run(tier, seed, replay=None):
         finally:
             w.close()
     K.validate_family(ctx, PID, scr, "line4", hdr3, "id-reuse", NONTRIVIAL)
+    cross = []
+    for pick in range(4 if tier == "quick" else 8):
+        w = R.world("line4", seed * 10 + 50 + pick)
+        try:
+            scripted_cross_answer(w, pick)
+            tr = {"events": w.events, "topology": "line4", "seed": seed, "profile": "cross-answer %d" % pick}
+            K.check_escapes(ctx, w, tr, "cross-answer")
+            cross.append(tr)
+            hdr4 = w.header()
+        finally:
+            w.close()
+    K.validate_family(ctx, PID, cross, "line4", hdr4, "cross-answer", NONTRIVIAL | {"MangleAnswer"})
     ctx.note("id_reuse", {"runs": len(scr), "events": sum(len(t["events"]) for t in scr),
                           "forged_creates": sum(1 for t in scr for e in t["events"] if e["a"] == "AdvCreate"),
                           "forged_destroys": sum(1 for t in scr for e in t["events"] if e["a"] == "ForgeDestroy")})
